@@ -4,7 +4,8 @@
   (`LinearEquation::from_line`, `IntersectionParams`: `i32` normal vectors / origin distances /
   determinant, `i64` squared denominator, numerators and rounding) and the `i64` miter length.
   Checked models: `EG.Model.CheckedLine`; plain: `EG.Model.Bresenham`, `Line`, `ThickLine`, and
-  `EG.Isect` (the plain form of the intersection code, which has no other model in this tree).
+  `EG.Isect` (the plain form of the intersection code next to the checked kernels; it is the same
+  function as the `EG.Joins` model of C02 / C07 / C17 / C19: C08/JoinsLink.lean).
 
   `DS.line l` = both end points within +-1024. The edges handed to `IntersectionParams` are the
   *extents* of thick segments (start points shifted by at most the stroke width); they are covered
